@@ -4,16 +4,17 @@ per-system generation / oracle / projection in lib/c16_<system>.py."""
 import json, os, re
 from concurrent.futures import ThreadPoolExecutor
 import vlib
-import c16_dqueue, c16_shcounter, c16_loadbalancer, c16_gcounter, c16_proxy, c16_shopcart, c16_nested, c16_replicatedkv
+import c16_dqueue, c16_shcounter, c16_loadbalancer, c16_gcounter, c16_proxy, c16_shopcart, c16_nested, c16_replicatedkv, c16_gotests
 
 ID = "C16"
 THEOREMS = "Properties/C16.v"
 HARNESS = ["c16"]
 LEVEL = "proof"
 READY = True
-SYSTEMS = [c16_dqueue, c16_shcounter, c16_loadbalancer, c16_gcounter, c16_proxy, c16_shopcart, c16_nested, c16_replicatedkv]
+SYSTEMS = [c16_dqueue, c16_shcounter, c16_loadbalancer, c16_gcounter, c16_proxy, c16_shopcart, c16_nested, c16_replicatedkv] + c16_gotests.PROGRAMS
 # walks per system: quick, thorough
 BUDGET = {"dqueue": (12, 1200), "shcounter": (6, 400), "loadbalancer": (10, 1000), "gcounter": (8, 800), "proxy": (10, 800), "shopcart": (8, 600), "nestedcrdtimpl": (8, 700), "replicatedkv": (4, 100)}
+BUDGET.update(c16_gotests.BUDGET)
 
 TRUSTED_BASE = [
     "Coq 8.16.1 kernel (coqc, full .vo build); vm_compute used in the non-vacuity Examples and in the correspondence evaluation",
